@@ -252,6 +252,17 @@ func (s *scope) CreateScope(ctx context.Context) (Scope, error) {
 	s.rootProvider.scopesMu.Unlock()
 	verifPoint("scope.CreateScope.registered")
 
+	// This scope may have been closed, and the child with it, between the two
+	// registrations. The child has then removed itself from the provider's
+	// table before it was in it: it must not stay there, and a closed scope is
+	// not what the caller asked for.
+	if atomic.LoadInt32(&child.disposed) != 0 {
+		s.rootProvider.scopesMu.Lock()
+		delete(s.rootProvider.scopes, child)
+		s.rootProvider.scopesMu.Unlock()
+		return nil, ErrScopeDisposed
+	}
+
 	// Auto-close on context cancellation
 	go func() {
 		<-ctx.Done()
